@@ -84,7 +84,13 @@ def gen(rng, tier, idx):
         cfg['sched'] = simworld.default_sched(0, poison=True)
         return cfg
     r = rng.random()
-    if r < 0.35:
+    if r < 0.12:
+        # a Grid on a swapper with random groupings (several handlers, routes of three and more steps)
+        c3 = c03._gen_plain(rng, tier, idx)
+        cfg = dict(mgr='swapper', grid=c3['grid'], shape=c3['shape'], groups=c3['groups'], nprocs=c3['nprocs'],
+                   P=c3['P'], family=c3['family'], order_shuffled=c3.get('order_shuffled', False), random_groups=True)
+        names = _names(cfg)
+    elif r < 0.35:
         grid = rng.choice([[1, 1], [1, 2], [2, 1], [2, 2], [1, 3], [3, 1], [2, 3], [3, 2], [3, 3], [2, 4], [4, 2], [1, 4]])
         gi = rng.choice([0, 0, 1])
         groups, pattern = c03.DRIVER[gi]
@@ -275,6 +281,8 @@ def run(case, tape=None):
             elif op[0] == 'free':
                 held = False
         probes['mgr_' + case['mgr']] = 1
+        if case.get('random_groups'):
+            probes['swapper_random_groups'] = 1
         probes['save_memory' if case['save'] else 'no_save_memory'] = 1
         return dict(nontrivial=(P > 1 and changes > 0), probes=probes)
 
@@ -304,3 +312,13 @@ def shrink(case):
                 s = list(case['shape'])
                 s[d] = n - 1
                 yield dict(case, shape=s)
+
+
+_gen_plain = gen
+
+
+def gen(rng, tier, idx):
+    case = _gen_plain(rng, tier, idx)
+    if not case.get('default_comm') and not case.get('systematic'):
+        cm.maybe_bystanders(rng, case['sched'], case['P'])
+    return case
